@@ -152,6 +152,8 @@ type mvSess struct {
 	droppedAll bool
 	// an L0->L0 compaction ran in this session (it re-sorts L0 by Smallest: finding F2)
 	l0l0Seen bool
+	// options of the session (for `reopen`)
+	opt badger.Options
 }
 
 func (s *mvSess) close() {
@@ -242,6 +244,7 @@ func (s *mvSess) open(kv map[string]string) (string, error) {
 		opt = opt.WithVLogPercentile(float64(vlogpct) / 100)
 	}
 	var err error
+	s.opt = opt
 	if s.managed {
 		s.db, err = badger.OpenManaged(opt)
 	} else {
@@ -394,6 +397,45 @@ func execMvcc(intents []string, st *Stats) (final, outs, oracle []string) {
 				continue
 			}
 			emit(op, "ok")
+		case "reopen":
+			// Close (flushes the memtable) and Open again on the same directory: C07 inside a
+			// history. Every read at or above the discard watermark must be unchanged.
+			if s.inmem {
+				emit(line, "err:inmem")
+				continue
+			}
+			pre := s.snapshotReads()
+			for _, t := range s.txns {
+				if !t.done {
+					t.t.Discard()
+					t.done = true
+				}
+			}
+			s.txns = map[int]*mvTxn{}
+			badger.VerifTakeEvents()
+			if err := s.db.Close(); err != nil {
+				emit(line, "err:close:"+err.Error())
+				s.db = nil
+				continue
+			}
+			s.emitEventsX(emit, fail, "", true) // the flush of the memtable at Close
+			var err error
+			if s.managed {
+				s.db, err = badger.OpenManaged(s.opt)
+			} else {
+				s.db, err = badger.Open(s.opt)
+			}
+			if err != nil {
+				emit(line, "err:open:"+err.Error())
+				fail("C07-reopen-failed", "Open after a clean Close failed: "+err.Error())
+				s.db = nil
+				continue
+			}
+			emit(line, fmt.Sprintf("ok next=%d", badger.VerifNextTxnTs(s.db)))
+			s.lastCts = 0
+			emit("dump", s.dump())
+			s.judgeStructure(fail)
+			s.judgeStable("close+open", pre, fail)
 		case "dump":
 			continue // dumps are emitted automatically after structural ops
 		case "begin":
@@ -1365,6 +1407,7 @@ func genMvccSession(rng *rand.Rand, st *Stats) []string {
 	keep := pick(rng, 1, 1, 2, 3, 1000)
 	thr := pick(rng, 16, 16, 64, 100000)
 	levels := pick(rng, 3, 4, 5, 7)
+	usedDropAll := false // DropAll also removes the end-of-transaction markers MaxVersion() looks at
 	inmem := rng.Intn(6) == 0
 	if params["inmem"] != "" {
 		inmem = params["inmem"] == "1"
@@ -1727,6 +1770,7 @@ func genMvccSession(rng *rand.Rand, st *Stats) []string {
 				open = nil
 				if rng.Intn(5) == 0 {
 					ops = append(ops, "dropall")
+					usedDropAll = true
 				} else {
 					k := keys[rng.Intn(len(keys))]
 					p := k[:1+rng.Intn(len(k))]
@@ -1737,6 +1781,11 @@ func genMvccSession(rng *rand.Rand, st *Stats) []string {
 					}
 					ops = append(ops, o)
 				}
+			} else if !inmem && !usedDropAll && rng.Intn(2) == 0 {
+				// Close + Open in the middle of the history (no transaction survives it)
+				open = nil
+				ops = append(ops, "reopen")
+				st.Inc("reopen")
 			}
 		case r < 100 && !managed:
 			continue
